@@ -4,6 +4,14 @@ PID = "C15"
 def run(tier, seed):
     ck = vlib.Check(PID, tier, seed, "model_checking")
     q = tier == "quick"
+    # protocol-level model of Pedersen-VSS (rounds, complaint resolution, one deviating party), exhaustive for n=3, t=1
+    import os
+    r = vlib.tlc("VSS", "MC_VSS.cfg", workers=8, timeout=900, xmx="4g")
+    if r.error:
+        raise vlib.Infra("TLC MC_VSS: %s" % r.error)
+    ck.add_tlc("MC_VSS", r)
+    if r.violation:
+        ck.violation("model:MC_VSS", "VSS.tla violates the property: %s" % r.violation, replay_path=os.path.join(vlib.OUT, "tlc", "VSS-MC_VSS.cfg.log"))
     dkg_common.run_trigger(ck, PID)
     dkg_common.run_proto(ck, PID, "dkg", 48 if q else 1200, seed, 5 if q else 7)
     dkg_common.run_proto(ck, PID, "vss", 64 if q else 1600, seed, 5 if q else 7)
